@@ -160,6 +160,14 @@ def gen_script(ctx, cplx=False):
     lines += ["def X1 1 %s 1 0 0" % cv(1.0), "def X2 1 %s 2 0 0 1 1" % cv(1.0), "eq X1 X2", "eq X2 X1",
               "def X3 2 %s 1 0 0 %s 1 0 0" % (cv(1.0), cv(-1.0)), "def X4 0", "eq X3 X4",
               "def X5 1 %s 1 0 0" % cv(1.0 + 2e-14), "eq X1 X5"]
+    # diagonal density-like monomials with k = 1..4 number operators in both orders of the annihilators, on every ket
+    for k in range(1, 5):
+        cre = " ".join("0 %d" % i for i in range(k))
+        for tag, ann in (("a", " ".join("1 %d" % i for i in range(k))), ("r", " ".join("1 %d" % i for i in reversed(range(k))))):
+            nm = "DN%d%s" % (k, tag)
+            lines.append("def %s 1 %s %d %s %s" % (nm, cv(1.0), 2 * k, cre, ann))
+            for ket in range(1 << 4):
+                lines.append("act %s 4 %d" % (nm, ket))
     for M in range(1, 6 if thorough else 4):
         for ket in range(1 << M):
             lines.append("nop %d %d" % (M, ket))
